@@ -26,13 +26,18 @@ def Straight : Expr → Prop
   | .list es => Straights es
   | .set es => Straights es
   | .dict kvs => StraightKVs kvs
-  | .lambda0 _ => True
+  | .lambda _ ds kds _ => Straights ds ∧ StraightKWs kds
+  | .slice3 l h st => Straight l ∧ Straight h ∧ Straight st
+  | .callx _ _ _ _ _ => False
 def Straights : Exprs → Prop
   | .nil => True
   | .cons e es => Straight e ∧ Straights es
 def StraightKVs : KVs → Prop
   | .nil => True
   | .cons k v r => Straight k ∧ Straight v ∧ StraightKVs r
+def StraightKWs : KWs → Prop
+  | .nil => True
+  | .cons _ e r => Straight e ∧ StraightKWs r
 end
 
 section
@@ -153,9 +158,20 @@ theorem extXE (e : Expr) (w : W) (hn : Straight e) : ExtX logOf (evalE P e w) w 
     simp only [evalE, order]
     exact ExtX.cast (ExtX.bind (o1 := []) (ExtX.quiet (hL.newDict w)) fun d w1 _ => extXKVs d kvs w1 hn)
       (by simp)
-  | lambda0 b =>
+  | lambda sg ds kds b =>
+    simp only [Straight] at hn
     simp only [evalE, order]
-    exact ExtX.quiet (hL.mkFunction _ _ w)
+    refine ExtX.bind (extXEs ds w hn.1) fun dvs w1 _ => ?_
+    exact ExtX.cast (ExtX.bind (extXKWs kds w1 hn.2) fun kvs w2 _ =>
+      ExtX.quiet (hL.mkFunction _ _ dvs kvs w2)) (by simp)
+  | slice3 l h st =>
+    simp only [Straight] at hn
+    simp only [evalE, order]
+    refine ExtX.bind (extXE l w hn.1) fun vl w1 _ => ?_
+    refine ExtX.bind (extXE h w1 hn.2.1) fun vh w2 _ => ?_
+    exact ExtX.cast (ExtX.bind (extXE st w2 hn.2.2) fun vs w3 _ =>
+      ExtX.quiet (hL.mkSlice3 vl vh vs w3)) (by simp)
+  | callx f args kws star dstar => simp only [Straight] at hn
 theorem extXEs (es : Exprs) (w : W) (hn : Straights es) :
     ExtX logOf (evalEs P es w) w (orders es) := by
   cases es with
@@ -176,6 +192,15 @@ theorem extXKVs (d : V) (kvs : KVs) (w : W) (hn : StraightKVs kvs) :
     refine ExtX.bind (extXE k w1 hn.1) fun vk w2 _ => ?_
     exact ExtX.cast (ExtX.bind (o1 := []) (ExtX.quiet (hL.dictSet d vk vv w2)) fun _ w3 _ =>
       extXKVs d rest w3 hn.2.2) (by simp)
+theorem extXKWs (kws : KWs) (w : W) (hn : StraightKWs kws) :
+    ExtX logOf (evalKWs P kws w) w (orderKWs kws) := by
+  cases kws with
+  | nil => simp only [evalKWs, orderKWs]; exact ExtX.pure _ _
+  | cons n e rest =>
+    simp only [StraightKWs] at hn
+    simp only [evalKWs, orderKWs]
+    refine ExtX.bind (extXE e w hn.1) fun v w1 _ => ?_
+    exact ExtX.cast (ExtX.bind (extXKWs rest w1 hn.2) fun r w2 _ => ExtX.pure _ _) (by simp)
 end
 
 end
